@@ -172,6 +172,8 @@ func childMain() {
 			}
 		}()
 		switch req.Op {
+		case "build":
+			childBuild(&req, resp)
 		case "unpack":
 			r := &faultReader{r: bytes.NewReader(req.Slug), failAt: req.FailAt, trunc: req.Trunc}
 			var err error
@@ -569,6 +571,7 @@ func coqNode(n *TNode) string {
 	}
 	return "(Special 1%N)"
 }
+
 // model times are nanoseconds since the epoch; (0, 0) = not set / kernel-set
 func coqMtime(sec, nsec int64) string {
 	if sec == 0 && nsec == 0 {
@@ -951,14 +954,14 @@ func corpusUnpack() []*UnpackCase {
 		return c
 	}
 	return []*UnpackCase{
-		mk(nil, reg("../dst-evil/x", "pwned")),                                    // D1: sibling prefix
-		mk(nil, lnk("l", "../dst-evil"), reg("l/x", "through")),                   // D1 on link target
-		mk(nil, lnk("l", "."), reg("nx/../l/../../victim", "x")),                  // D2 flavour
-		mk(nil, lnk("a", "."), lnk("b", "a/../victim"), reg("b", "clobbered")),    // D3: file entry on an accepted link
-		mk(nil, lnk("a", "."), lnk("b", "a/..")),                                  // D5: lexically fine, physically outside
-		mk(nil, lnk("b", "a/.."), lnk("a", ".")),                                  // D5, other order
-		good(dir("empty/")),                                                       // D4: empty directory
-		good(dir("d/"), reg("d/f", "x"), dir("e/")),                               //
-		good(lnk("k", "c.txt"), reg("k", "via-link")),                             // D3 benign form: file entry after a link of the same name
+		mk(nil, reg("../dst-evil/x", "pwned")),                                 // D1: sibling prefix
+		mk(nil, lnk("l", "../dst-evil"), reg("l/x", "through")),                // D1 on link target
+		mk(nil, lnk("l", "."), reg("nx/../l/../../victim", "x")),               // D2 flavour
+		mk(nil, lnk("a", "."), lnk("b", "a/../victim"), reg("b", "clobbered")), // D3: file entry on an accepted link
+		mk(nil, lnk("a", "."), lnk("b", "a/..")),                               // D5: lexically fine, physically outside
+		mk(nil, lnk("b", "a/.."), lnk("a", ".")),                               // D5, other order
+		good(dir("empty/")),                                                    // D4: empty directory
+		good(dir("d/"), reg("d/f", "x"), dir("e/")),                            //
+		good(lnk("k", "c.txt"), reg("k", "via-link")),                          // D3 benign form: file entry after a link of the same name
 	}
 }
